@@ -196,6 +196,8 @@ impl SegmentedLog {
                 true
             }
             Some(ref w) if w.file_size() >= self.max_segment_size => {
+                #[cfg(nomt_verif)]
+                crate::verif::probe("seglog.segment_rollover");
                 self.create_segment(record_id)?;
                 true
             }
